@@ -6,6 +6,10 @@ import json
 import subprocess
 import sys
 
+import os
+
+REPO2 = os.environ.get("SEED_REPO", "/repo")
+VERIF2 = os.environ.get("SEED_VERIF", "/verif")
 seed = sys.argv[1]
 d = f"/verif/seeded/{seed}"
 meta = json.load(open(f"{d}/meta.json"))
@@ -17,16 +21,16 @@ def sh(cmd, cwd=None, timeout=3000):
     return p.returncode, p.stdout + p.stderr
 
 
-rc, out = sh("git -C /repo status --porcelain")
+rc, out = sh(f"git -C {REPO2} status --porcelain")
 assert out.strip() == "", "/repo not clean"
-rc, out = sh(f"git -C /repo apply {d}/patch.diff")
+rc, out = sh(f"git -C {REPO2} apply {d}/patch.diff")
 assert rc == 0, out
 try:
     for c in checks:
-        rc, out = sh(f"./check {c} --tier quick", cwd="/verif")
+        rc, out = sh(f"SECSGEM_REPO={REPO2} ./check {c} --tier quick", cwd=VERIF2)
         meta.setdefault("checks", {})[c] = {"exit": rc, "violations": [l for l in out.splitlines() if l.startswith("VIOLATION")][:6]}
 finally:
-    sh("git -C /repo checkout -- .")
+    sh(f"git -C {REPO2} checkout -- .")
 meta["detected_by"] = sorted(c for c, r in meta["checks"].items() if r["exit"] == 1)
 json.dump(meta, open(f"{d}/meta.json", "w"), indent=1)
 print(seed, {c: meta["checks"][c]["exit"] for c in checks}, "detected_by", meta["detected_by"])
